@@ -1078,8 +1078,18 @@ class HeaderSet(cabc.MutableSet[str]):
         headers: cabc.Iterable[str] | None = None,
         on_update: cabc.Callable[[te.Self], None] | None = None,
     ) -> None:
-        self._headers = list(headers or ())
-        self._set = {x.lower() for x in self._headers}
+        self._headers: list[str] = []
+        self._set: set[str] = set()
+
+        # Build both containers the way update() does, so that a header given
+        # in two spellings is kept once.
+        for header in headers or ():
+            key = header.lower()
+
+            if key not in self._set:
+                self._headers.append(header)
+                self._set.add(key)
+
         self.on_update = on_update
 
     def add(self, header: str) -> None:
